@@ -84,6 +84,16 @@ fn main() {
         usage();
     }
     install_panic_hook();
+    // properties whose statement promises termination: a case that does not return is a violation
+    let hang: Option<(&str, u64)> = match id.as_str() {
+        "C04" => Some(("robust", 300)),
+        "C17" => Some(("graphs", if tier == "quick" { 120 } else { 600 })),
+        _ => None,
+    };
+    if let Some((suite, limit)) = hang {
+        let limit = std::env::var("VERIF_HANG_LIMIT").ok().and_then(|s| s.parse().ok()).unwrap_or(limit);
+        cvlib::engine::enable_hang_monitor(&id, suite, &verif_dir, limit, replay.clone());
+    }
     if let Some(path) = replay {
         let txt = std::fs::read_to_string(&path).expect("replay file");
         let v: serde_json::Value = serde_json::from_str(&txt).expect("replay json");
